@@ -38,7 +38,8 @@ try:
                     bad.pop(u, None)
                 elif u in bad:
                     fnq = {f["id"]: f["fn"] for f in r.failures}
-                    bad[u] = [i for i in bad[u] if getattr(r, "strlit_patterns", {}).get(fnq[i], 0) <= bu.get("strlit_patterns", {}).get(fnq[i], 0)]
+                    bad[u] = [i for i in bad[u] if getattr(r, "strlit_patterns", {}).get(fnq[i], 0) <= bu.get("strlit_patterns", {}).get(fnq[i], 0)
+                              and getattr(r, "bare_loops", {}).get(fnq[i], 0) <= bu.get("bare_loops", {}).get(fnq[i], 0)]
             bad = {u: v for u, v in bad.items() if v}
             und = {u: r.reason.split("\n")[0][:160] + " | " + " ".join(r.reason.split("\n")[1:3])[:300] for u, r in res.items() if r.status == "undecided"}
             out[name] = dict(failed=bad, undecided=und)
